@@ -20,7 +20,7 @@ PID = "C05"
 LEVEL = "exploration"
 RULE = (
     "synthetic: Hypothesis draws histories (T in 1..8 batches, non-decreasing beta_t incl. several beta=0 batches, log-likelihoods from a tempered "
-    "Gaussian family of scale 10^U(-0.5,3) in d dims with consistent or perturbed logz_t, or adversarial ones with a non-monotone ESS curve) x "
+    "Gaussian family of scale 10^U(-0.5,5.5) in d dims with consistent or perturbed logz_t, or adversarial ones with a non-monotone ESS curve) x "
     "n_particles in {6..100} x ess_ratio in {0.5,1,2,3.5,1.25,0.75,0.29,2.3} or U(0.3,4) (non-integer ESS targets included) x metric {ESS, volume-variation target in {0.05,0.3,1,5}}; real: sampler runs over the option "
     "lattice observed after every Reweighter.run(). Non-trivial = the step advanced (beta+ > beta-) from a history with >= 2 batches."
 )
@@ -36,7 +36,7 @@ def synth_cases(draw):
     return {"T": T, "d": draw(st.integers(1, 3)), "N": draw(st.sampled_from([6, 8, 10, 16, 30, 32, 64, 100])),
             "ess_ratio": draw(st.one_of(st.sampled_from([0.5, 1.0, 2.0, 3.5, 1.25, 0.75, 0.29, 2.3]), st.floats(0.3, 4.0))),
             "vv": draw(st.sampled_from([None, None, 0.05, 0.3, 1.0, 5.0])),
-            "logscale": draw(st.floats(-0.5, 3.0)), "n_warm": draw(st.integers(1, 4)),
+            "logscale": draw(st.one_of(st.floats(-0.5, 3.0), st.floats(3.0, 5.5))), "n_warm": draw(st.integers(1, 4)),
             "beta_pow": draw(st.sampled_from([1.0, 3.0])), "beta_max": draw(st.sampled_from([1.0, 0.1, 1e-3])),
             "family": draw(st.sampled_from(["tempered", "tempered", "perturbed-logz", "adversarial"])),
             "unequal": draw(st.booleans()), "seed": draw(st.integers(0, 2**31 - 1))}
@@ -144,13 +144,16 @@ def real_cases(draw):
     return {"row": {"kernel": draw(st.sampled_from(["tpcn", "rwm"])), "resample": draw(st.sampled_from(["mult", "syst"])),
                     "clustering": draw(st.booleans()), "metric": draw(st.sampled_from(["ess", "vv0.3", "vv2", "vv0.05"])),
                     "mode": "vector", "zero": draw(st.booleans()), "d": draw(st.integers(1, 3))},
-            "ess_ratio": draw(st.one_of(st.sampled_from([1.0, 2.0, 3.5, 1.3, 2.45]), st.floats(1.0, 3.5))), "seed": draw(st.integers(0, 2**31 - 2))}
+            "ess_ratio": draw(st.one_of(st.sampled_from([1.0, 2.0, 3.5, 1.3, 2.45]), st.floats(1.0, 3.5))), "seed": draw(st.integers(0, 2**31 - 2)),
+            "narrow": draw(st.sampled_from([1.0, 0.1, 0.03]))}
 
 
 def exec_real(case):
     row, seed = case["row"], case["seed"]
     d = row["d"]
-    t = Target.from_spec(simple_target_spec(np.random.default_rng(seed), d, "vector", zero=row["zero"]))
+    spec = simple_target_spec(np.random.default_rng(seed), d, "vector", zero=row["zero"])
+    spec["width"] = [w * case.get("narrow", 1.0) for w in spec["width"]]  # likelihoods very narrow relative to the prior: many tiny temperature steps
+    t = Target.from_spec(spec)
     cfg = row_to_cfg(row, d)
     cfg["ess_ratio"] = case["ess_ratio"]
     np.random.seed(seed)
@@ -186,6 +189,6 @@ def exec_real(case):
 
 CHECKS = [
     Check("synthetic", synth_cases, exec_synth, n={"quick": 2400, "thorough": 40000}, shards={"quick": 16, "thorough": 16}),
-    Check("real", real_cases, exec_real, n={"quick": 48, "thorough": 600}, shards={"quick": 16, "thorough": 16},
+    Check("real", real_cases, exec_real, n={"quick": 96, "thorough": 900}, shards={"quick": 16, "thorough": 16},
           shrink={"quick": False, "thorough": True}),
 ]
